@@ -22,6 +22,7 @@ pub enum Error<'t> {
     DisallowedNodeInIf(AstNode<'t>),
     IdentIsTooLarge(&'t str, usize),
     RegisterIsTooLarge(&'t str, usize),
+    NonFiniteArgument(&'t str, f64),
 }
 
 impl<'t> From<macros::Error<'t>> for Error<'t> {
@@ -63,6 +64,8 @@ impl<'t> fmt::Display for Error<'t> {
                 write!(f, "Operation {node:?} isn't allowed in If block"),
             Error::IdentIsTooLarge(name, bytes_len) =>
                 write!(f, "Ident {name:?} has size({bytes_len} bytes) more than 32 bytes"),
+            Error::NonFiniteArgument(name, value) =>
+                write!(f, "Gate {name:?} cannot receive a non-finite argument ({value})"),
             Error::RegisterIsTooLarge(name, q_num) =>
                 write!(f, "Register {name:?} hase {q_num} qubits/bits which is more than simulator is capable of to simulate"),
         }
